@@ -49,7 +49,8 @@ CHECKS = {
              "or cold consensus cache, historical views opened in between; non-trivial = schedule shows >=2 of {batch>1, "
              "gossip-before-momentum, late gossip, restart, warm views, accepted block with ack depth>0}",
         assumptions=HIST_ASSUME,
-        jobs=[dict(test="TestC02", quick=T(8, 25, 40), thorough=T(16, 150, 70, 3000))],
+        jobs=[dict(test="TestC02", quick=T(7, 25, 40), thorough=T(14, 150, 70, 3000)),
+              dict(test="TestC02Reorg", quick=T(1, 20), thorough=T(2, 150, 0, 3000))],
     ),
     "C04": dict(
         level="exploration",
